@@ -72,7 +72,7 @@ def regen():
 
 
 GEN_OF = {"tr_dtypes": "DtypeTables", "tr_config": "ConfigTable", "tr_storage": "StorageKinds", "tr_hook": "HookConsts",
-          "tr_brackets": "Brackets", "tr_pyl": "CheckDimsSrc", "tr_pyl_hook": "ShouldInstrumentSrc"}
+          "tr_brackets": "Brackets", "tr_pyl": "CheckDimsSrc", "tr_pyl_hook": "ShouldInstrumentSrc", "tr_pyl_storage": "StorageSrc"}
 
 
 def gen_deps(pid):
